@@ -54,7 +54,11 @@ RULE = (
     "<=7 rows, repeats and empty operands), oracle = Python set algebra on tuples; parsers: enumerated argument forms; "
     "khatrirao: 1..4 matrices with a common column count vs column-wise np.kron.  Non-trivial: >=2 distinct mode sizes "
     "(index maps), dims not ascending (dimscheck), operands sharing some but not all rows with different relative order "
-    "or repeats (row helpers), >=2 matrices with different row counts (khatrirao)."
+    "or repeats (row helpers), >=2 matrices with different row counts (khatrirao).  Round 2: index arrays / shape entries / "
+    "mode designations / row matrices / Khatri-Rao factors in other dtypes (int32, intp, small signed and unsigned integers, "
+    "numpy scalars; bool, float32, complex128 for khatrirao) and mixed between operands, rows that coincide modulo 256, "
+    "F-ordered and strided argument arrays, mode sizes up to 300 (sizes beyond 2**31), order='C', factors scaled by 1e-6 / "
+    "1e+6, and every helper asked twice with the first answer overwritten in between."
 )
 ASSUMPTIONS = [
     "row helpers: MATLAB 'rows' set semantics as far as callers in sptensor.py depend on them (validity, distinctness, "
@@ -63,6 +67,11 @@ ASSUMPTIONS = [
     "association order of the products may differ from np.kron's)",
     "tt_ind2sub is given a private copy of the index array (it rewrites negative indices in place; operand mutation is "
     "C05's subject)",
+    "an argument is generated in a dtype that can hold its own values (an index array in uint8 only holds indices <= 255); "
+    "whether the dtype can also hold derived quantities (the tensor size, index + size, mode - 1) is the helper's business",
+    "khatrirao with a float32 argument: products may be rounded to float32 whichever way the factors are associated "
+    "(NumPy result types), bound 64*k*eps_float32*|product|; integer / boolean / complex data with integer parts compared "
+    "exactly; uint8 / bool entries are kept so small that a product of four cannot wrap",
 ]
 
 
@@ -617,7 +626,7 @@ def _row_pair(draw, tier):
     w = draw(st.integers(1, 3))
     # alias mode: one operand is held in uint8, the other (int64) gets rows that differ from rows of the first by a
     # multiple of 256 in one entry - distinct rows that coincide if either operand is cast to the other's dtype
-    alias = draw(st.sampled_from([None, None, None, "A-narrow", "B-narrow"]))
+    alias = draw(st.sampled_from([None] * 6 + ["A-narrow", "B-narrow"]))
     letters = [0, 1, 255] if alias else draw(st.sampled_from([[0, 1, 2], [0, 1, 2], [3, 0, 7], [1, 2, 5], [0, 255, 256, -1]]))
     pool = draw(st.lists(st.tuples(*[st.sampled_from(letters)] * w), min_size=1, max_size=6, unique=True))
     where = [draw(st.sampled_from(["both", "both", "both", "A", "B"])) for _ in pool]
